@@ -136,6 +136,18 @@ def range_bounds(fn, e):
     return None
 
 
+CMP_METHODS = {"std::cmp::PartialOrd::lt": "Lt", "std::cmp::PartialOrd::le": "Le", "std::cmp::PartialOrd::gt": "Gt",
+               "std::cmp::PartialOrd::ge": "Ge", "std::cmp::PartialEq::eq": "Eq", "std::cmp::PartialEq::ne": "Ne"}
+
+
+def _peel_ref_expr(e):
+    d = 0
+    while e is not None and e.k in ("ref", "deref") and d < 4:
+        e = e.a
+        d += 1
+    return e
+
+
 def edge_facts(fn, view_info, stack=(), interproc=True):
     """{(switch_bb, target_bb): [(op, lhs_term, rhs_term), ...]}.  Besides the comparisons in this
     body, the Ok edge of a call to a crate-local Result-returning function carries that function's
@@ -189,6 +201,17 @@ def edge_facts(fn, view_info, stack=(), interproc=True):
                 if ft != tt:
                     out.setdefault((b, tt), []).append((NEG[e.b.a], l, r))
                     out.setdefault((b, ft), []).append((e.b.a, l, r))
+        elif e.k == "call" and len(e.a.args) == 2 and e.a.path in CMP_METHODS and 0 in arms:
+            # `a < b` on a generic `T: PartialOrd` (a validation helper shared by several integer
+            # types) is a trait method call on references
+            ax = call_arg_exprs(e.a)
+            l = term_of(fn, _peel_ref_expr(ax[0]), view_info)
+            r = term_of(fn, _peel_ref_expr(ax[1]), view_info)
+            op = CMP_METHODS[e.a.path]
+            ft, tt = arms[0], t["otherwise"]
+            if l is not None and r is not None and ft != tt:
+                out.setdefault((b, tt), []).append((op, l, r))
+                out.setdefault((b, ft), []).append((NEG[op], l, r))
         elif e.k == "call" and e.a.name == "contains" and len(e.a.args) == 2 and "ops::Range" in e.a.path and 0 in arms:
             # (lo..=hi).contains(&x) / (lo..hi).contains(&x): on the true edge lo <= x <= hi (x < hi)
             rb = range_bounds(fn, call_arg_exprs(e.a)[0])
